@@ -50,8 +50,9 @@ PROBES = [
     "witness-refused-past-leaf",
     "witness-of-absent-prefix",
     "older-root-used",
+    "asked-first-on-incomplete-store",
 ]
-FAULTS = ["msg-drop", "msg-dup", "msg-reorder", "msg-alter", "msg-truncate", "msg-substitute", "msg-stale-root"]
+FAULTS = ["msg-drop", "msg-dup", "msg-reorder", "msg-alter", "msg-truncate", "msg-substitute", "msg-stale-root", "withhold-node"]
 COMPONENTS = {
     "real": ["trie.branches.get_branch / if_branch_valid / check_if_branch_exist / get_trie_nodes / get_witness_for_key_prefix", "trie.binary.BinaryTrie"],
     "stub": ["SimDB mapping", "prover / channel / verifier actors"],
@@ -109,6 +110,7 @@ class World(C12World):
         key = unhx(cmd["k"])
         stored = key in contents
         related = any(m != key and (m.startswith(key) or key.startswith(m)) for m in contents)
+        self.warm_up(cmd, lambda: get_branch(self.db, root, key))
         try:
             branch = get_branch(self.db, root, key)
         except InvalidKeyError as e:
@@ -233,6 +235,7 @@ class World(C12World):
         contents = self.registry[root]
         p = unhx(cmd["k"])
         want = any(m.startswith(p) for m in contents)
+        self.warm_up(cmd, lambda: check_if_branch_exist(self.db, root, p))
         try:
             got = check_if_branch_exist(self.db, root, p)
         except Exception as e:
@@ -243,9 +246,29 @@ class World(C12World):
         self.st.probe("prefix-exists-true" if want else "prefix-exists-false")
         return str(got)
 
+    def warm_up(self, cmd, fn):
+        """A light client first asks while part of the store is still missing (bodies
+        withheld), is then given the rest, and asks again: the second answer is judged."""
+        whi = cmd.get("pre_wh")
+        if not whi:
+            return
+        keys = sorted(self.db.raw())
+        if not keys:
+            return
+        self.db.arm(withhold={keys[j % len(keys)] for j in whi})
+        try:
+            fn()
+        except Exception:
+            pass
+        if self.db.withheld_hits or True:
+            self.st.fault("withhold-node")
+        self.db.disarm()
+        self.st.probe("asked-first-on-incomplete-store")
+
     def op_trie_nodes(self, cmd):
         root = self.pick_root(cmd)
         r = self.ref_of(root)
+        self.warm_up(cmd, lambda: get_trie_nodes(self.db, root))
         try:
             got = get_trie_nodes(self.db, root)
         except Exception as e:
@@ -262,6 +285,7 @@ class World(C12World):
         contents = self.registry[root]
         p = unhx(cmd["k"])
         past_leaf = any(m != p and p.startswith(m) for m in contents)
+        self.warm_up(cmd, lambda: get_witness_for_key_prefix(self.db, root, p))
         try:
             wit = get_witness_for_key_prefix(self.db, root, p)
         except InvalidKeyError as e:
@@ -332,6 +356,7 @@ def generate(rng):
     probes = probe_keys(rng, pool)
     g = BHistory(rng, pool, values, probes)
     g.w["set"] += 3
+    p_pre = rng.choice([0.0, 0.0, 0.3, 0.6])
     cmds = [g.mutation() for _ in range(rng.choice(deep([6, 10, 16, 25, 40], [10, 20, 40, 70, 100])))]
     for _ in range(rng.choice([10, 20, 40])):
         pos = rng.randrange(len(cmds) // 3, len(cmds) + 1)
@@ -356,6 +381,8 @@ def generate(rng):
             c = {"op": "witness", "k": hx(k[: rng.randint(0, len(k))] if rng.random() < 0.7 else k + bytes([rng.randrange(256)]))}
         if rng.random() < 0.25:
             c["root"] = rng.randrange(1000)
+        if rng.random() < p_pre:
+            c["pre_wh"] = [rng.randrange(1000) for _ in range(rng.choice([1, 2, 4, 8]))]
         cmds.insert(pos, c)
     return {"prop": ID, "cfg": {"probe": [hx(k) for k in probes[:60]]}, "cmds": cmds}
 
